@@ -423,6 +423,10 @@ func (e *H2End) Do(op *H2Op) {
 		// credit granted ahead of consumption (a receiver may raise its windows at any time)
 		e.GrantExtra(op.Stream, int(op.Code))
 		return
+	case "extension":
+		e.wfr.WriteRawFrame(http2.FrameType(0x10), 0, 0, []byte{0, 0, 0, 1, 'u', '=', '3'})
+		e.flush()
+		return // nothing the peer has to see
 	case "ping":
 		e.wfr.WritePing(false, op.Ping)
 		ev.Ping = op.Ping
